@@ -203,6 +203,44 @@ func c02Run(t *testing.T, sub, keyA, keyB string, maxLen int, bitStride int, qb,
 			}
 			try("other session's list under this nonce", true, L2, pks, ctx, nonce, issig)
 			try("other session's list under its nonce", false, L2, pks, ctx, nonceB, issig)
+			// the same decoded proof objects verified repeatedly (a verifier that keeps the received list
+			// around): state left behind by an accepting verification must not make a later verification
+			// for another session tuple succeed, nor a later honest one fail
+			{
+				reuse := vsCloneList(L)
+				again := func(what string, want bool, ks []*gabikeys.PublicKey, c, nn *big.Int, sig bool) {
+					r.Eval()
+					r.Nontrivial(caseBase + "|reuse|" + what)
+					var ok bool
+					if pan, _ := vkit.Guard(func() { ok = reuse.Verify(ks, c, nn, sig, nil) }); pan {
+						r.Count("panic during verification (judged by C08)", 1)
+						return
+					}
+					rep := map[string]any{"composition": comp.name, "issig": issig, "neighbour": "same objects, " + what}
+					if ok && !want {
+						r.Violate("C02|accepted-in-other-session|object-reuse|"+what, fmt.Sprintf("%s: after an accepting verification the same proof objects verify for: %s", caseBase, what), rep)
+					}
+					if !ok && want {
+						r.Violate("C02|honest-list-rejected|object-reuse", fmt.Sprintf("%s: %s", caseBase, what), rep)
+					}
+				}
+				again("identity (1st)", true, pks, ctx, nonce, issig)
+				for i := 0; i < n; i++ {
+					ks := append([]*gabikeys.PublicKey{}, pks...)
+					ks[i] = other.Pk
+					if ks[i] != pks[i] {
+						again(fmt.Sprintf("key %d substituted", i), false, ks, ctx, nonce, issig)
+					}
+				}
+				if n >= 2 && pks[0] != pks[1] {
+					again("all keys = key 0", false, append([]*gabikeys.PublicKey{pks[0], pks[0]}, pks[2:]...), ctx, nonce, issig)
+					again("keys 0,1 swapped", false, append([]*gabikeys.PublicKey{pks[1], pks[0]}, pks[2:]...), ctx, nonce, issig)
+				}
+				again("nonce+1", false, pks, ctx, new(big.Int).Add(nonce, vfInt(1)), issig)
+				again("context+1", false, pks, new(big.Int).Add(ctx, vfInt(1)), nonce, issig)
+				again("flag flipped", false, pks, ctx, nonce, !issig)
+				again("identity (again)", true, pks, ctx, nonce, issig)
+			}
 			// single proofs through their own Verify
 			if n == 1 {
 				single := func(what string, changed bool, c, nn *big.Int, sig bool) {
